@@ -168,6 +168,7 @@ type RunOpts struct {
 	Dir         string // reuse this case directory (retry of a recorded run)
 	KeepDirs    bool
 	HangBound   time.Duration
+	Watchdog    time.Duration // wall-clock limit of the whole case (default 120 s); for runs the caller holds open on purpose
 	Quiet       bool
 }
 
@@ -924,7 +925,11 @@ func runOnce(spec *CaseSpec, opts *RunOpts) *Outcome {
 	}
 
 	// wait for the run to return
-	watchdog := time.NewTimer(120 * time.Second)
+	wd := 120 * time.Second
+	if opts.Watchdog > 0 {
+		wd = opts.Watchdog
+	}
+	watchdog := time.NewTimer(wd)
 	defer watchdog.Stop()
 	var hangTimer <-chan time.Time
 	tick := time.NewTicker(2 * time.Millisecond)
@@ -935,7 +940,7 @@ wait:
 		case <-runDone:
 			break wait
 		case <-watchdog.C:
-			r.abort("case watchdog (120 s) fired")
+			r.abort(fmt.Sprintf("case watchdog (%v) fired", wd))
 			select {
 			case <-runDone:
 			case <-time.After(10 * time.Second):
